@@ -455,9 +455,13 @@ func (d *Dials[T]) updateSourceValue(
 	if stackErr != nil {
 		oldVal := d.View()
 		newVal, _ := newInterface.(*T)
-		d.submitEvent(ctx, &watchErrorEvent[T]{
-			err: stackErr, oldConfig: oldVal, newConfig: newVal,
-		})
+		// like every other global callback, this one is withheld while
+		// verification is delayed and the suppress option is set
+		if !(skipVerify && d.params.CallGlobalCallbacksAfterVerificationEnabled) {
+			d.submitEvent(ctx, &watchErrorEvent[T]{
+				err: stackErr, oldConfig: oldVal, newConfig: newVal,
+			})
+		}
 		if watchTab.installed != nil {
 			watchTab.installed <- stackErr
 		}
